@@ -1,6 +1,9 @@
 package main
 
 import (
+	"github.com/olive-io/bpmn/v2/pkg/expression/expr"
+	"github.com/olive-io/bpmn/v2/pkg/data"
+	"context"
 	"fmt"
 	"math"
 	"math/big"
@@ -712,6 +715,7 @@ func c16Engine(env *Env, rep *Report) {
 	}
 	propertyPerRequest(env, rep, "C16-engine", "C16-isolation")
 	manyWritersAtOnce(env, rep, "C16-engine", 6)
+	c16ExprPools(env, rep)
 	// values stored and read on a boundary event's exception flow (the token that waits at the boundary event is made
 	// by the activity's harness): a task result stored there, a condition reading it, a data object
 	for _, intr := range []bool{true, false} {
@@ -982,5 +986,78 @@ func manyWritersAtOnce(env *Env, rep *Report, key string, rounds int) {
 			rep.Violate(key, cs, fmt.Sprintf("the results %v of answered tasks are not among the instance's variables at the end", lost))
 		}
 		in.Close()
+	}
+}
+
+// c16ExprPools: the expression functions read the pool they name — getDataObject the data objects, getProp the
+// properties — whatever was read before in the same expression: the same name present in both pools (object read first
+// or second), and a name present in one pool only
+func c16ExprPools(env *Env, rep *Report) {
+	objects := data.NewDataObjectContainer()
+	put := func(c interface {
+		PutItemAwareByName(string, data.IItemAware)
+	}, name string, v any) {
+		it := data.NewContainer(nil)
+		it.Put(schema.NewValue(v))
+		c.PutItemAwareByName(name, it)
+	}
+	put(objects, "order", map[string]any{"total": 5})
+	put(objects, "list", []any{1, 2, 3})
+	put(objects, "flag", true)
+	props := data.NewPropertyContainer()
+	put(props, "order", "vip")
+	put(props, "flag", map[string]any{"k": "v"})
+	cases := []struct {
+		src  string
+		want string
+	}{
+		{`[getDataObject('order'), getProp('order')][1]`, `"vip"`},
+		{`[getProp('order'), getDataObject('order')][1].total`, `5`},
+		{`[getDataObject('list'), getProp('list')][1]`, `<nil>`},
+		{`[getProp('flag'), getDataObject('flag')][1]`, `true`},
+		{`[getDataObject('order'), getDataObject('order'), getProp('order')][2]`, `"vip"`},
+		{`getProp('order')`, `"vip"`},
+		{`getProp('list')`, `<nil>`},
+	}
+	for _, c := range cases {
+		cs := "expression " + c.src + " over data objects {order: {total: 5}, list: [1,2,3], flag: true} and properties {order: \"vip\", flag: {k: v}}"
+		env.Current(cs)
+		rep.Evaluations++
+		rep.Nontrivial++
+		rep.Count("expr_pools")
+		got, panicked := "", ""
+		func() {
+			defer func() {
+				if r := recover(); r != nil {
+					panicked = fmt.Sprint(r)
+				}
+			}()
+			engine := expr.New(context.Background())
+			engine.SetItemAwareLocator(data.LocatorObject, objects)
+			engine.SetItemAwareLocator(data.LocatorProperty, props)
+			compiled, err := engine.CompileExpression(c.src)
+			if err != nil {
+				got = "compile error: " + err.Error()
+				return
+			}
+			res, err := engine.EvaluateExpression(compiled, map[string]any{})
+			if err != nil {
+				got = "evaluation error: " + err.Error()
+				return
+			}
+			switch x := res.(type) {
+			case nil:
+				got = "<nil>"
+			case string:
+				got = fmt.Sprintf("%q", x)
+			default:
+				got = fmt.Sprint(x)
+			}
+		}()
+		if panicked != "" {
+			rep.Violate("C16-panic", cs, "panic: "+panicked)
+		} else if got != c.want {
+			rep.Violate("C16-engine", cs, fmt.Sprintf("evaluates to %s, expected %s", got, c.want))
+		}
 	}
 }
